@@ -47,6 +47,9 @@ def cases(tier, seed, i, n):
                 for rep in range(1 if tier == 'quick' else 3):
                     yield dict(p=p, r=r, t=t, c=c, h=h, hseed=rnd.randrange(1 << 30), no_auto_pong=bool((gi + rep) % 3 == 0))
         yield gen.mark('full grid poll x ping_rate x ping_timeout x close_timeout (3x5x5x4)')
+        for what in ('pong', 'close'):
+            for t_, sl in ((1.0, 0.9), (1.0, 0.7), (2.0, 1.8), (3.0, 2.95)):
+                yield dict(kind='slowpong', what=what, t=t_, sleep=sl)
         # a clock that reads round decimal values (epoch 0): multiples of the ping rate and poll instants then
         # coincide up to the last bit, which is where "next multiple in the future" computed in floats can be wrong
         for p, r in ((0.1, 0.3), (0.2, 0.3), (0.1, 0.7), (0.25, 0.7), (0.1, 0.01), (0.5, 1.5), (0.1, 0.6), (1.0, 3.0)):
@@ -119,7 +122,48 @@ def build(case):
     return steps, table, horizon
 
 
+def run_slowpong(case, acc):
+    """A Pong (or the server's Close) is received in the same read as an earlier message whose handler takes long:
+    it HAS arrived, the ping timeout (close timeout) is not over just because the client has not looked at it yet."""
+    from ..ref import ws as refws_
+    F_ = refws_.enc_frame
+    t, sleep = case['t'], case['sleep']
+    if case['what'] == 'pong':
+        steps = [('at', 0.5), ('raw', F_(1, b'slow') + F_(10, b'') + F_(1, b'after')), ('at', 0.5 + t + 3.0), ('eof',)]
+        ckw = dict(poll=0.5, ping_rate=0, ping_timeout=t)
+        table = {'text#0': [['sleep', sleep]]}
+    else:
+        steps = [('at', 0.5), ('raw', F_(1, b'go')), ('await_close',), ('raw', F_(1, b'slow') + F_(8, refws_.close_payload(1000, 'ok'))), ('eof',)]
+        ckw = dict(poll=0.5, ping_rate=0, close_timeout=t)
+        table = {'text#0': [['close', 1000, 'bye']], 'text#1': [['sleep', sleep]]}
+    w = H.World(H.hs_server(steps), horizon=20.0, stop_at=20.0, budget=60000)
+    run = H.drive(w, connect_kwargs=ckw, policy=H.TablePolicy(table))
+    acc.count2('oracle', 'slow_handler_same_read_runs')
+    names = [n for n in run.names if n != 'poll']
+    t0 = run.times[run.names.index('ready')] if 'ready' in run.names else 0.0
+    detail = dict(events=[(n, round(tt - t0, 3)) for n, tt in zip(run.names, run.times) if n != 'poll'], end=run.end)
+    key = None
+    if case['what'] == 'pong':
+        # the Pong arrived 0.5 s after Ready; Unresponsive is due only t after that
+        if 'unresponsive' in names:
+            tu = run.times[run.names.index('unresponsive')] - t0
+            if tu < 0.5 + t - EPS:
+                key = 'unresponsive-before-ping-timeout-elapsed:pong-received-in-the-same-read-as-a-slowly-handled-message'
+        if key is None and ('pong' not in names or names.count('text') != 2):
+            key = 'unresponsive-before-ping-timeout-elapsed:pong-received-in-the-same-read-as-a-slowly-handled-message'
+    else:
+        last = run.events[-1] if run.events else None
+        if 'closed' not in names or last is None or last.name != 'disconnected' or not last.graceful:
+            key = 'forced-disconnect-although-the-close-reply-had-been-received:same-read-as-a-slowly-handled-message'
+    if key:
+        acc.violation(key, 'C15 %s: t=%s handler takes %s' % (key, t, sleep), case, detail)
+    else:
+        acc.cls('slow-same-read/%s/%s/%s' % (case['what'], t, sleep))
+
+
 def run_case(case, acc):
+    if case.get('kind') == 'slowpong':
+        return run_slowpong(case, acc)
     p, r, t, c = case['p'], case['r'], case['t'], case['c']
     steps, table, horizon = build(case)
     w = H.World(H.hs_server(steps), horizon=horizon, stop_at=horizon, budget=60000,
